@@ -114,16 +114,7 @@ package align
 // IterateChar / IterateAll call `it` on the rows in order until it returns true; they write nothing themselves.
 // The effects of the function literal are accounted for at the call site by the verifier (every captured variable
 // it assigns and every heap array it writes is havocked after the call).
-//@ func (*seqbag).IterateChar
-//@   props C04
-//@   trusted higher-order: calls its argument on each row (calls of function values are not inlined by the generator); the loop itself only reads sb.seqs
-//@   requires sb != nil
-//@   modifies nothing
-//@ func (*seqbag).IterateAll
-//@   props C04
-//@   trusted higher-order: calls its argument on each row (calls of function values are not inlined by the generator); the loop itself only reads sb.seqs
-//@   requires sb != nil
-//@   modifies nothing
+// ((*seqbag).IterateChar / IterateAll: trusted contracts with the iteration protocol in zz_contracts_c01b_verif.go)
 
 // DiffWithFirst, the function itself: only residues are written (the per-row effect is the closure's contract below)
 //@ func (*align).DiffWithFirst
@@ -201,26 +192,16 @@ package align
 
 // Concat, the function itself (safety and the alphabet check; what the passes do to the rows is in the closures' contracts:
 // the effects of the function literals are havocked at the three Iterate calls)
-//@ func (*align).Concat
-//@   props C04
-//@   requires wfa(a) && wfa(c)
-//@   ensures a.alphabet != c.alphabet ==> err != nil && c4b_sameshape(a)
-//@   modifies field(seqbag.seqs), field(align.length), field(seq.sequence), mem(*seq), mem(uint8), maps(map[string]*seq)
+// (*align).Concat itself: NOT COVERED. Its third pass iterates over `a` after the second literal has added rows through
+// a.AddSequence while `a` is transiently not rectangular: the literal cannot be proved against the contract of AddSequenceChar
+// (requires wfa), so nothing is known about `a` at the third IterateChar call (whose precondition needs non-nil rows).
+// The per-row facts are those of Concat$1 (above) and Concat$3 (zz_contracts_c01b_verif.go).
 
 // Append: the step run on every row of al (AddSequenceChar through its contract): the alignment stays well-formed; a row with a new
 // name and the right length is added at the end, under its name, with the residues of the given row (the storage is SHARED with al's row);
 // the iteration stops at the first error
-//@ func (*align).Append$1
-//@   props C04
-//@   requires wfa(a)
-//@   ensures wfa(a) && result == (err != nil)
-//@   ensures forall r :: 0 <= r && r < old(nrows(a)) ==> row(a, r) == old(row(a, r))
-//@   ensures !old(has(a.seqmap, name)) && (old(a.length) == -1 || old(a.length) == len(sequence)) ==> err == nil && nrows(a) == old(nrows(a)) + 1 && rowname(a, old(nrows(a))) == name && sameslice(row(a, old(nrows(a))).sequence, sequence) && a.length == len(sequence)
-//@   ensures old(a.length) != -1 && old(a.length) != len(sequence) && a.ignoreidentical == IGNORE_NONE ==> err != nil && nrows(a) == old(nrows(a)) && a.length == old(a.length)
-//@   modifies captured(err), a.seqs, a.length, a.seqs[+], map(a.seqmap)
+// ((*align).Append$1: one contract, in zz_contracts_c01b_verif.go)
 
 // Append, the function itself: safety and frame only (the effects of the function literal are havocked at the IterateAll call)
-//@ func (*align).Append
-//@   props C04
-//@   requires wfa(a) && wfa(al)
-//@   modifies field(seqbag.seqs), field(align.length), mem(*seq), maps(map[string]*seq)
+// ((*align).Append: one contract, in zz_contracts_c01b_verif.go (ensures wfa(a)))
+
